@@ -486,6 +486,9 @@ var gstmtFuncs = map[string]bool{
 	"newUDPSockWrapper": true, "newTLSSockWrapper": true, "newSerialPortWrapper": true, "discard": true,
 	"tcpTransport.ExecuteRequest": true, "tcpTransport.readResponse": true, "tcpTransport.assembleMBAPFrame": true, "rtuTransport.assembleRTUFrame": true,
 	"rtuTransport.ExecuteRequest": true,
+	// server side of the transports
+	"tcpTransport.ReadRequest": true, "tcpTransport.WriteResponse": true, "tcpTransport.Close": true,
+	"rtuTransport.ReadRequest": true, "rtuTransport.WriteResponse": true, "rtuTransport.Close": true,
 	// server life cycle and role extraction
 	"ModbusServer.Start": true, "ModbusServer.Stop": true, "ModbusServer.acceptTCPClients": true, "ModbusServer.handleTCPClient": true,
 	"ModbusServer.startTLS": true, "ModbusServer.extractRole": true,
